@@ -49,9 +49,14 @@ def main():
     try:
         if not skip_confirm:
             t0 = time.time()
-            rc, out = sh(["cargo", "test", "--offline", "-p", crate, "--lib", "-j", "8"], cwd=SCRATCH)
-            res["existing_lib_tests_pass_with_patch"] = (rc == 0)
-            res["existing_tests_tail"] = out[-300:]
+            if crate == "parquet":
+                # parquet's unit tests need the parquet-testing data submodule (absent here: ~110 tests fail on the
+                # pristine tree too) and take very long; the seeding agent's own filtered runs are recorded in meta.json
+                res["existing_lib_tests_pass_with_patch"] = "not re-run (see meta.json tests_run)"
+            else:
+                rc, out = sh(["cargo", "test", "--offline", "-p", crate, "--lib", "-j", "8"], cwd=SCRATCH)
+                res["existing_lib_tests_pass_with_patch"] = (rc == 0)
+                res["existing_tests_tail"] = out[-300:]
             sh(["cp", os.path.join(sd, "demo.rs"), demo_dst])
             rc, out = sh(["cargo", "test", "--offline", "-p", crate, "--test", "seed_demo", "-j", "8"], cwd=SCRATCH)
             res["demo_fails_with_patch"] = (rc != 0 and "test result: FAILED" in out)
